@@ -23,7 +23,10 @@ vars == <<cfg, layers, inner>>
 
 Quarter(k) == k % 3 = 0
 Exact(e, L) == Quarter(e[L.d]) /\ (L.s2 * (e[L.d] \div 3)) % 2 = 0
-Reduce1(e, L) == [e EXCEPT ![L.c] = AddQuarter(e[L.c], -((L.s2 * (e[L.d] \div 3)) \div 2))]
+\* Angle indices are NOT reduced modulo a turn here: with a non-integer scaling the coupled joint depends on the
+\* actual value of the driven joint (-180 and +180 degrees differ), exactly as in the code; k \div 3 is the (floor)
+\* number of quarter turns of index k and C5/S5 accept any integer index.
+Reduce1(e, L) == [e EXCEPT ![L.c] = e[L.c] - 3 * ((L.s2 * (e[L.d] \div 3)) \div 2)]
 
 \* the vector seen below a stack of couplings: the outermost coupling acts first
 RECURSIVE Below(_, _)
@@ -42,7 +45,7 @@ Next == \E d \in 1..6, c \in 1..6, s2 \in Scalings2 : d # c /\ Couple([d |-> d, 
 Spec == Init /\ [][Next]_vars
 
 \* the model's own consistency: undoing the couplings innermost first restores the outer vector
-Undo1(x, L) == [x EXCEPT ![L.c] = AddQuarter(x[L.c], (L.s2 * (x[L.d] \div 3)) \div 2)]
+Undo1(x, L) == [x EXCEPT ![L.c] = x[L.c] + 3 * ((L.s2 * (x[L.d] \div 3)) \div 2)]
 RECURSIVE Above(_, _)
 Above(x, ls) == IF ls = <<>> THEN x ELSE Undo1(Above(x, Tail(ls)), Head(ls))
 RoundTrip == Above(inner, layers) = Configs[cfg]
